@@ -62,6 +62,7 @@ func mptEntries(r *engine.Run, rule string) []*ssa.Function {
 }
 
 func runC16(r *engine.Run) {
+	r.Rule("ERR-select", "see C04: where SaveChanges waits on the writer's error and done channels, the done case looks at the error channel again before reporting success (both can be ready; select picks at random)")
 	r.Rule("RACE-captured", "see C11: a function literal started as a goroutine inside a loop in core/util stores into no variable captured from the enclosing function (parallel workers that report failure into one shared error variable race on it whenever two of them fail)")
 	r.Rule("COPY-lock", "every method of a struct of core/util that holds a mutex has a pointer receiver (see C08)")
 	r.Rule("LOCK-mpt", "guarded-by discipline over every function reachable from the trie operations named in the property and from the exported methods of MemoryNodeDB/LevelNodeDB/ChangeCollector: root, deleteNodes, the stores' maps and level links and the collector's maps are accessed only with their owner's mutex held in the required mode (interprocedural must-lockset; writes need the write lock), constructor-only fields are never rewritten; `go` bodies start with nothing held")
@@ -98,6 +99,7 @@ func runC16(r *engine.Run) {
 	whoReadOnly(r, "WHO-readonly")
 	copyLock(r, "COPY-lock", pkgUtil)
 	raceCaptured(r, "RACE-captured", pkgUtil, 0)
+	errSelect(r, "ERR-select", funcsOfPkg(r, pkgUtil), 1)
 }
 
 func orderCritical(r *engine.Run, w *engine.LockWorld) {
